@@ -39,4 +39,26 @@ Definition collision_x (w : world) (h mv : id) : bool :=
   | _, _ => false
   end.
 
+(* ---------- the finding classes of the statements for all 26 constructors *)
+Variable tab_el tab_en : nametab.
+Variable check_fn : N -> list N -> res bool.
+Variable LATEST : N.
+Variable root_attrs : list (N * cdata).
+
+(* C04: as Known04, without the side condition on the type of a model root (RootsPlain is an invariant) *)
+Definition Known04a (w : world) (o : op) : bool :=
+  match o with
+  | OpRemoveFile _ _ => late_short T w
+  | _ => Known04 T LATEST w o
+  end.
+
+(* C05: as Known05, plus the two-model form of the container move *)
+Definition Known05a (w : world) (o : op) : bool :=
+  match o with
+  | OpMove h mv | OpMoveAt h mv _ =>
+    Known05 T tab_el tab_en check_fn LATEST root_attrs w o
+    || (negb (same_model w h mv) && negb (identifiable T w mv) && collision_x w h mv)
+  | _ => Known05 T tab_el tab_en check_fn LATEST root_attrs w o
+  end.
+
 End RefsAll.
